@@ -118,6 +118,17 @@ Round 9 additions:
     started = spent > 0) -> REFUTED, `if not predecessors: return` accepted; a constant empty result of calc under a test of node
     times (`if length == 0: return []`) -> REFUTED, under `no arcs at all` accepted.
 
+Round 10 additions:
+  * pass loops over `itertools.chain(self.<nodes>, (end,))` / tuples; an iterable part the rule cannot relate to the node list
+    is UNDECIDED, not "pass not run for every node";
+  * the passes may be methods of the node class (`n.resolve_start()`, recursion through `link.start.resolve_start()`): the
+    receiver is the node argument;
+  * terminal candidates taken from the arcs (`[w.end for w in self.<links>.values() if len(w.end.<outgoing>) == 0]`) when nodes
+    are only made by the arc builder;
+  * C12.inherit: the ancestors' predecessors contributing only under a test of the task's own links / amounts (`if not
+    any(p.parent in parents for p in task.predecessors)`, `if task.estimate`) -> REFUTED; `if task.parent is not None` in front
+    of the walk over task.all_parents and `if task.predecessors:` are discharged.
+
 Not decided: exactness of the longest-path result as a number (magnitude of the tolerance - a constant above 1e-3 is
 reported UNDECIDED -, float rounding inside the folds), "never empty when the WBS has a leaf" (follows from the clauses,
 not checked on its own), acyclicity handling (the property quantifies over acyclic WBSs), the end_date != None mode
@@ -277,8 +288,17 @@ def _calculator_ctors(cg, entry: Func):
 
 def _node_param(p: Func) -> Optional[str]:
     """the node parameter of a pass: first parameter after self (methods) or the first one (static / module level)"""
+    if p.kind == 'method' and len(p.params) == 1:
+        return p.params[0]          # a method of the node class itself: `n.resolve_start()`
     i = 1 if p.kind in ('method', 'getter', 'setter') else 0
     return p.params[i] if len(p.params) > i else None
+
+
+def _pass_node_arg(c: ast.Call, p: Func) -> Optional[ast.AST]:
+    """the node a pass is applied to at call c: the receiver for a method of the node class, else the first argument"""
+    if p.kind == 'method' and len(p.params) == 1:
+        return c.func.value if isinstance(c.func, ast.Attribute) else None
+    return c.args[0] if c.args else None
 
 
 def _inline_fresh_nodes(R: 'Roles', f: Func) -> Dict[str, Tuple[ast.Call, Optional[str]]]:
@@ -1580,8 +1600,16 @@ def _inherit_registered(ctx, R: Roles, model, o_inh, o_reg):
                      f"the tasks that fail it get no dependency arc, but a predecessor (and, for a summary, every one of its leaves) "
                      f"binds the task")
             continue
+        own_ = sorted({a for alt in objs[k] for a in alt if U.is_own_atom(a)})
+        if own_ and k[:1] in (('all_parents',), ('parent',)):
+            shown = own_[0].replace(U.OWN_MARK, '', 1)
+            o.refute(ins, call, f"{U.path_text(k, task_p)} if {shown}",
+                     f"`{U.path_text(k, task_p)}` (the predecessors declared on the ancestor summaries) become dependency arcs only when "
+                     f"`{shown}`, a test of the task's own links / amounts: a dependency declared on a summary task binds all its "
+                     f"leaves, whatever else a leaf is linked to")
+            continue
         o.undecided(ins, call, U.path_text(k, task_p), f"`{U.path_text(k, task_p)}` contributes only under a condition the rule cannot "
-                                                        f"discharge: {U.cond_text(objs[k])}")
+                                                        f"discharge: {U.cond_text(objs[k]).replace(U.OWN_MARK, '')}")
 
     # ------------------------------------------------------------------ C12.registered
     o = o_reg
@@ -2226,6 +2254,22 @@ def _passes(ctx, R: Roles, model, o, o_eq):
             if et and et[1] and isinstance(et[0], ast.Attribute) and isinstance(et[0].value, ast.Name) and \
                     et[0].value.id == parts[1].id:
                 flt = et[0].attr
+        elif parts and isinstance(parts[1], ast.Name) and len(parts[3]) == 1 and (
+                match(f"self.{model.get('links_attr')}.values()", parts[2]) or match(f"list(self.{model.get('links_attr')}.values())", parts[2])):
+            # the candidates are taken from the arcs: `[w.end for w in self.<links>.values() if len(w.end.<outgoing>) == 0]`.  Every
+            # registered node is the start or the end node of one arc (nodes are only made by the arc builder); an arc's start node
+            # always has an outgoing link and its end node an incoming one, so (end, outgoing) / (start, incoming) lose nothing
+            wv = parts[1].id
+            me_ = match(f"{wv}.$side", parts[0])
+            et = empty_test(_inline_graph_predicates(prog, R, parts[3][0]), True)
+            makers = [f_ for f_ in prog.all_funcs() if f_.module is R.mod and f_ is not add and f_ is not R.new_node and (
+                (R.new_node is not None and R.calls_to(f_, R.new_node)) or
+                (f_.cls == R.cls and f_ is not calc and any(c_.kind == 'ctor' and c_.targets and c_.targets[0].cls == R.node_cls
+                                                          for c_ in ctx.cg.calls_in(f_))))]
+            if me_ and et and et[1] and not makers and match(f"{wv}.{me_['side']}.$a", et[0]):
+                a_ = et[0].attr
+                if (me_['side'], a_) in (('end', OUT), ('start', IN)):
+                    flt = a_
         elif match(f"self.{nodes_attr}", it) or match(f"list(self.{nodes_attr})", it):
             # one pass over all nodes, the emptiness test as a condition inside the loop:
             # `for n in self.<nodes>: if len(n.<incoming>) == 0: connect(begin, n, 0)`
@@ -2303,12 +2347,14 @@ def _passes(ctx, R: Roles, model, o, o_eq):
     # pass loops: forward over all nodes and the sink, backward over all nodes
     for (p, cs), what in ((first[0], 'forward'), (first[1], 'backward')):
         covered_nodes = covered_sink = False
+        odd_parts = []
         for c in cs:
             n = ccfg2.node_containing(c)
             fors = ccfg2.enclosing_fors(n)
-            if not fors or not (c.args and isinstance(c.args[0], ast.Name) and isinstance(fors[-1].target, ast.Name)
-                                and c.args[0].id == fors[-1].target.id):
-                if c.args and sink is not None and same(c.args[0], sink) and not ccfg2.conditions(n):
+            pa_ = _pass_node_arg(c, p)
+            if not fors or not (isinstance(pa_, ast.Name) and isinstance(fors[-1].target, ast.Name)
+                                and pa_.id == fors[-1].target.id):
+                if pa_ is not None and sink is not None and same(pa_, sink) and not ccfg2.conditions(n):
                     covered_sink = True
                 continue
             if ccfg2.conditions(n):
@@ -2318,11 +2364,19 @@ def _passes(ctx, R: Roles, model, o, o_eq):
             for part in _concat_parts(it):
                 if match(f"self.{nodes_attr}", part):
                     covered_nodes = True
-                elif isinstance(part, ast.List):
+                elif isinstance(part, (ast.List, ast.Tuple)):
                     for el in part.elts:
                         if sink is not None and (same(el, sink) or same(exk.expand(el), exk.expand(sink))):
                             covered_sink = True
-        if not covered_nodes and (not nodes_attr or nodes_attr.startswith('_unidentified_')):
+                else:
+                    odd_parts.append(part)
+        if not covered_nodes and odd_parts:
+            o.undecided(calc, cs[0] if cs else calc.node, f"{what} loop", f"the {what} pass ranges over `{src(odd_parts[0])[:60]}`, which "
+                                                                           f"the rule cannot relate to self.{unmangle(nodes_attr or '?')}")
+        elif what == 'forward' and covered_nodes and sink is not None and not covered_sink and odd_parts:
+            o.undecided(calc, cs[0], f"{what} loop", f"cannot tell whether `{src(odd_parts[0])[:60]}` brings the common sink into the "
+                                                     f"forward pass")
+        elif not covered_nodes and (not nodes_attr or nodes_attr.startswith('_unidentified_')):
             o.undecided(calc, cs[0] if cs else calc.node, f"{what} loop", f"the calculator's node list was not identified (see "
                                                                            f"C12.leaf-arcs): cannot tell what the {what} pass ranges over")
         elif not covered_nodes:
@@ -2455,9 +2509,17 @@ def _inline_graph_predicates(prog, R: Roles, e: ast.AST) -> ast.AST:
 def _concat_parts(e: ast.AST) -> List[ast.AST]:
     if isinstance(e, ast.BinOp) and isinstance(e.op, ast.Add):
         return _concat_parts(e.left) + _concat_parts(e.right)
-    m = match("list($x)", e)
+    m = match("list($x)", e) or match("tuple($x)", e) or match("iter($x)", e)
     if m:
         return _concat_parts(m['x'])
+    if isinstance(e, ast.Call) and not e.keywords and e.args and (
+            (isinstance(e.func, ast.Name) and e.func.id == 'chain') or
+            (isinstance(e.func, ast.Attribute) and e.func.attr == 'chain' and isinstance(e.func.value, ast.Name)
+             and e.func.value.id == 'itertools')):
+        out = []
+        for a in e.args:            # itertools.chain(self.<nodes>, (end,))
+            out += _concat_parts(a)
+        return out
     return [e]
 
 
@@ -2552,9 +2614,11 @@ def _check_pass(ctx, R, o, p: Func, what: str, field, op, links, far, sign, othe
                 self.generic_visit(n)
                 fn_ = n.func
                 nm_ = unmangle(fn_.attr) if isinstance(fn_, ast.Attribute) else getattr(fn_, 'id', None)
-                if nm_ == p.name and len(n.args) == 1 and not n.keywords:
-                    rec_in_term.append(n.args[0])
-                    return ast.Attribute(value=n.args[0], attr=field, ctx=ast.Load())
+                na_ = _pass_node_arg(n, p)
+                if nm_ == p.name and na_ is not None and len(n.args) == (0 if na_ is not (n.args[0] if n.args else None) else 1) \
+                        and not n.keywords:
+                    rec_in_term.append(na_)
+                    return ast.Attribute(value=na_, attr=field, ctx=ast.Load())
                 return n
         term = _RecRead().visit(_copy.deepcopy(term))
     l = lin(term)
@@ -2611,7 +2675,7 @@ def _check_pass(ctx, R, o, p: Func, what: str, field, op, links, far, sign, othe
     for c in recs:
         rn = cfg.node_containing(c)
         fors = cfg.enclosing_fors(rn)
-        if not fors or not isinstance(fors[-1].target, ast.Name) or not c.args:
+        if not fors or not isinstance(fors[-1].target, ast.Name) or _pass_node_arg(c, p) is None:
             verdicts.append(('unknown', c, "recursive call outside a loop over the node's links"))
             continue
         loop2 = fors[-1]
@@ -2620,7 +2684,7 @@ def _check_pass(ctx, R, o, p: Func, what: str, field, op, links, far, sign, othe
         if not same(ex.expand(loop2.iter, h2), fo.iter):
             verdicts.append(('wrongloop', c, f"recursion ranges over `{src(loop2.iter)}`, the fold over `{src(fo.iter)}`"))
             continue
-        arg = ex.expand(c.args[0], rn, stop={v2})       # `prev = link.start; self.__forward(prev)`
+        arg = ex.expand(_pass_node_arg(c, p), rn, stop={v2})       # `prev = link.start; self.__forward(prev)`
         if not match(f"{v2}.{far}", arg):
             verdicts.append(('wrongarg', c, f"recurses on `{src(arg)}` instead of {v2}.{far}"))
             continue
